@@ -7,6 +7,8 @@ package c12
 
 import (
 	"fmt"
+	"math/big"
+	"regexp"
 	"strconv"
 	"strings"
 
@@ -139,70 +141,95 @@ func mavenClass(law string, t [3]item) string {
 
 // ---- rhctag projection
 
-// rhcShape looks at a tag text the way the proved fragment is defined:
-// optional leading 'v', then `digits` or `digits.digits`, followed by the end,
-// a '.' or a '-'; no ':' anywhere; numbers below 2^31.
-//   "plain"      inside the fragment
-//   "nonnumeric" a component that is not plain digits (sign, letters, tilde, empty, epoch colon)
-//   "wrap"       plain digits but a number >= 2^31 (int32 conversion wraps / Atoi fails)
-func rhcShape(s string) (v bool, shape string) {
-	if strings.HasPrefix(s, "v") {
-		v = true
-		s = s[1:]
-	}
+var rpmTok = regexp.MustCompile("([a-zA-Z]+)|([0-9]+)|(~)")
+
+// rhcPlain is the hypothesis of Props.C12.rhctag_projection_monotone_partial
+// (Model/RhcTag.lean `plain`), evaluated on the parsed tag: no ':' in the
+// text; the rpm tokens of the text before the first '-' are, after an
+// optional "v" token, the number Major, then nothing (and Minor = 0) or the
+// number Minor; both below 2^31.  Returns "v", "plain" or "no".
+func rhcPlain(t rhcV) string {
+	s := t.v.Original
 	if strings.Contains(s, ":") {
-		return v, "nonnumeric"
+		return "no"
 	}
-	wrap := false
-	num := func(s string) (string, bool) {
+	ver, _, _ := strings.Cut(s, "-")
+	toks := rpmTok.FindAllString(ver, -1)
+	kind := "plain"
+	if len(toks) > 0 && toks[0] == "v" {
+		kind = "v"
+		toks = toks[1:]
+	}
+	isNum := func(tok string, want int) bool {
+		if tok[0] < '0' || tok[0] > '9' {
+			return false
+		}
+		n, ok := new(big.Int).SetString(tok, 10)
+		return ok && n.IsInt64() && n.Int64() == int64(want) && want < 1<<31
+	}
+	if len(toks) == 0 || !isNum(toks[0], t.v.Major) {
+		return "no"
+	}
+	if len(toks) == 1 {
+		if t.v.Minor != 0 {
+			return "no"
+		}
+		return kind
+	}
+	if !isNum(toks[1], t.v.Minor) {
+		return "no"
+	}
+	return kind
+}
+
+// rhcWhy describes a tag outside the fragment, for the finding classes:
+//   "wrap"       a leading number of the text is >= 2^31 (int32 conversion wraps / Atoi fails)
+//   "nonnumeric" anything else (sign, letters, tilde, empty component, epoch colon)
+func rhcWhy(s string) string {
+	s = strings.TrimPrefix(s, "v")
+	for k := 0; k < 2; k++ {
 		i := 0
 		for i < len(s) && s[i] >= '0' && s[i] <= '9' {
 			i++
 		}
 		if i == 0 {
-			return s, false
+			return "nonnumeric"
 		}
 		d := strings.TrimLeft(s[:i], "0")
 		if len(d) > 10 || (len(d) == 10 && d > "2147483647") {
-			wrap = true
+			return "wrap"
 		}
-		return s[i:], true
-	}
-	s, ok := num(s)
-	if !ok {
-		return v, "nonnumeric"
-	}
-	if s != "" && s[0] == '.' {
-		s, ok = num(s[1:])
-		if !ok {
-			return v, "nonnumeric"
+		s = s[i:]
+		if k == 0 {
+			if s == "" || s[0] != '.' {
+				break
+			}
+			s = s[1:]
 		}
-		if s != "" && s[0] != '.' && s[0] != '-' {
-			return v, "nonnumeric"
-		}
-	} else if s != "" && s[0] != '-' {
-		return v, "nonnumeric"
 	}
-	if wrap {
-		return v, "wrap"
-	}
-	return v, "plain"
+	return "nonnumeric"
 }
 
 // rhcClass names the listed finding a projection inversion belongs to; a
 // pair inside the proved fragment (both plain, same prefix) stays unclassified.
-func rhcClass(a, b string) string {
-	va, sa := rhcShape(a)
-	vb, sb := rhcShape(b)
+func rhcClass(a, b rhcV) string {
+	pa, pb := rhcPlain(a), rhcPlain(b)
 	switch {
-	case sa == "nonnumeric" || sb == "nonnumeric":
-		return "rhctag-projection-nonnumeric"
-	case sa == "wrap" || sb == "wrap":
-		return "rhctag-projection-int32-wrap"
-	case va != vb:
-		return "rhctag-projection-inverts"
+	case pa != "no" && pb != "no" && pa == pb:
+		return ""
+	case pa != "no" && pb != "no":
+		return "rhctag-projection-inverts" // mixed v prefix
 	}
-	return ""
+	why := "nonnumeric"
+	for i, p := range []string{pa, pb} {
+		if p == "no" && rhcWhy([]rhcV{a, b}[i].v.Original) == "wrap" {
+			why = "wrap"
+		}
+	}
+	if why == "wrap" {
+		return "rhctag-projection-int32-wrap"
+	}
+	return "rhctag-projection-nonnumeric"
 }
 
 // failCapped reports a classified failure a few times per class only (the
@@ -229,6 +256,12 @@ func projections(r *hx.Run, rnd *hx.Rand, n int) {
 		if !ra.ok || !rb.ok {
 			continue
 		}
+		// the fragment of the projection theorem, harness against model
+		for _, t := range []rhcV{ra, rb} {
+			pl := rhcPlain(t)
+			r.Op("rhcplain "+hexs(t.v.Original), pl, pl != "no")
+			r.Count("rhctag:plain:" + pl)
+		}
 		x, y := ra.v, rb.v
 		c := cmpGuard(func() int { return sgn(x.Compare(&y)) })
 		px, py := x.Version(true), y.Version(true)
@@ -240,7 +273,7 @@ func projections(r *hx.Run, rnd *hx.Rand, n int) {
 			continue
 		}
 		if c != 0 && pc == -c {
-			cls := rhcClass(a, b)
+			cls := rhcClass(ra, rb)
 			r.Count("rhctag:proj:inverted:" + cls)
 			failCapped(r, cls, fmt.Sprintf("rhctag projection-inverts %s %s compare=%d projections=%v,%v", q(a), q(b), c, px.V[:2], py.V[:2]))
 		}
